@@ -161,6 +161,16 @@ func runCheck(o *checkOpts) int {
 		err := tr.run()
 		rep := &fnReport{tr: tr, err: err, nObl: len(tr.obls)}
 		reports = append(reports, rep)
+		if err != nil && strings.Contains(err.Error(), "outside the supported subset: contract expression") {
+			// a clause that is assumed here (a requires, a callee's or function literal's ensures, a loop
+			// invariant) names something the code no longer has: the function's proof cannot be
+			// rebuilt; reported as one failed obligation instead of an engine error
+			rep.err = nil
+			obls = append(obls, &Obligation{Name: tr.name + "/contract-evaluable#1", Kind: "contract-evaluable", Fn: tr.name, Props: tr.props,
+				Expect: "unsat", Clause: "every clause the proof of this function uses can be evaluated against the code", Syntactic: true, Solver: "syntactic",
+				Status: "failed", Answer: "syntactic", Model: err.Error()})
+			continue
+		}
 		if err != nil {
 			fmt.Printf("ENGINE-ERROR %v\n", err)
 			broken = true
